@@ -26,12 +26,79 @@ pub struct Expect {
     /// the same with children of <ol> that are not <li>, of <dl> that are not <dt>/<dd> left
     /// out (finding KF-C03-1), None if equal to `all`
     pub lenient_lists: Option<String>,
+    /// the same as `all` with table children that lie *between* two row groups (a caption
+    /// between two tbody elements) moved behind the table's last row (finding KF-C03-3),
+    /// None if the document has no such child
+    pub caption_between_moved: Option<String>,
     pub has_table: bool,
     pub href_has_tokens: bool,
     pub has_sup: bool,
 }
 fn visible_chars(s: &str) -> String {
     s.chars().filter(|c| !c.is_whitespace() && !c.is_control()).collect()
+}
+/// Visible text with non-row children of a table that stand between two row-bearing
+/// children deferred to the end of the table.  Returns None if there is no such child.
+fn moved_captions(dom: &Dom) -> Option<String> {
+    use crate::dom::Data;
+    fn has_tr(d: &Dom, i: usize) -> bool {
+        d.is_html(i, "tr") || d.nodes[i].kids.iter().any(|&k| has_tr(d, k))
+    }
+    fn go(d: &Dom, i: usize, out: &mut String, moved: &mut bool) {
+        match &d.nodes[i].data {
+            Data::Text(t) => out.push_str(t),
+            Data::Elem(l, html, at) => {
+                if *html && dom::IGNORED.contains(&l.as_str()) {
+                    return;
+                }
+                if *html && l == "img" {
+                    let src = at.iter().find(|(k, _)| k == "src").map(|(_, v)| v.as_str()).unwrap_or("");
+                    let alt = at.iter().find(|(k, _)| k == "alt").map(|(_, v)| v.as_str()).unwrap_or("");
+                    if !src.is_empty() {
+                        out.push_str(alt);
+                    }
+                    return;
+                }
+                if *html && l == "table" {
+                    let kids = &d.nodes[i].kids;
+                    let bearing: Vec<bool> = kids.iter().map(|&k| has_tr(d, k)).collect();
+                    let first = bearing.iter().position(|&b| b);
+                    let last = bearing.iter().rposition(|&b| b);
+                    let mut deferred = vec![];
+                    for (idx, &k) in kids.iter().enumerate() {
+                        let between = matches!((first, last), (Some(f), Some(l)) if f < idx && idx < l) && !bearing[idx];
+                        if between && !visible_chars(&dom::visible_text_of(d, k)).is_empty() {
+                            deferred.push(k);
+                            *moved = true;
+                        } else {
+                            go(d, k, out, moved);
+                        }
+                    }
+                    for k in deferred {
+                        go(d, k, out, moved);
+                    }
+                    return;
+                }
+                for &k in &d.nodes[i].kids {
+                    go(d, k, out, moved);
+                }
+            }
+            Data::Doc => {
+                for &k in &d.nodes[i].kids {
+                    go(d, k, out, moved);
+                }
+            }
+            _ => {}
+        }
+    }
+    let mut out = String::new();
+    let mut moved = false;
+    go(dom, 0, &mut out, &mut moved);
+    if moved {
+        Some(visible_chars(&out))
+    } else {
+        None
+    }
 }
 pub fn expect(dom: &Dom) -> Expect {
     let strict = dom::visible_text(dom, &|_| false);
@@ -48,6 +115,7 @@ pub fn expect(dom: &Dom) -> Expect {
     let href_has_tokens = (0..dom.nodes.len()).any(|i| dom.is_html(i, "a") && dom.attr(i, "href").map(|h| h.chars().any(|c| !c.is_ascii_digit() && c != '/')).unwrap_or(false));
     Expect {
         lenient_lists: if l1 != all { Some(l1.clone()) } else { None },
+        caption_between_moved: moved_captions(dom),
         all,
         has_table: dom.has_elem("table"),
         href_has_tokens,
@@ -95,6 +163,14 @@ pub fn check_one(html: &[u8], w: usize, cfg: &Cfg, ex: &Expect, cx: &mut Cx) {
         if let Some(l1) = &ex.lenient_lists {
             if same(&got, &tok(l1)) {
                 cx.known("KF-C03-1", || json!({"case": case_json(html, w, cfg), "expected": want, "observed": got}));
+                return;
+            }
+        }
+        // a caption between two row groups is rendered below the whole table: the ordered
+        // comparison fails, the expectation with that caption moved behind the rows holds exactly
+        if let Some(m) = &ex.caption_between_moved {
+            if ordered && got == tok(m) {
+                cx.known("KF-C03-3", || json!({"case": case_json(html, w, cfg), "expected": want, "observed": got}));
                 return;
             }
         }
